@@ -181,6 +181,14 @@ class EnumOf(Spec):
         return self.wrap(t)
 
 
+class FlagOf(Spec):
+    def __init__(self, cls):
+        self.cls = cls
+
+    def fresh(self, name):
+        return sym.SymFlag.fresh(self.cls, name)
+
+
 class Opt(Spec):
     def __init__(self, inner: Spec):
         self.inner = inner
@@ -340,8 +348,9 @@ class SetOf(Spec):
 
 
 class SeqOf(Spec):
-    def __init__(self, val: Spec):
+    def __init__(self, val: Spec, invariant=None):
         self.val = val
+        self.invariant = invariant  # holds for every element of a sequence received as input / result
 
     def fresh(self, name):
         c = cur()
@@ -351,7 +360,17 @@ class SeqOf(Spec):
         q = sym.SymSeq(None, n, name=name)
         q.spec = self
         q.state = state
-        q.elem = lambda i: self.val.arr_select(q.state, i)
+        if self.invariant is None:
+            q.elem = lambda i: self.val.arr_select(q.state, i)
+        else:
+            inv = self.invariant
+
+            def elem(i):
+                v = self.val.arr_select(q.state, i)
+                cur().pc.append(tm.Implies(tm.And(tm.Le(tm.mk_int(0), i), tm.Lt(i, q.length)), sym.B(inv(v))))
+                return v
+
+            q.elem = elem
         return q
 
     def empty(self, name="list"):
@@ -436,8 +455,16 @@ class TupleOf(Spec):
         return tuple(s.arr_store(st, kt, v) for s, st, v in zip(self.items, state, value))
 
 
+CLASS_SPECS: dict = {}  # real class -> Rec spec (filled by contract modules)
+
+
 def spec_of_value(v):
     """Best-effort spec of an existing value (for havoc)."""
+    if isinstance(v, sym.SymOpt):
+        inner = spec_of_value(v.payload)
+        return Opt(inner) if inner is not None else None
+    if isinstance(v, sym.SymObj) and v._frozen and v._cls in CLASS_SPECS:
+        return CLASS_SPECS[v._cls]
     if isinstance(v, sym.SymBool) or isinstance(v, bool):
         return Bool
     if isinstance(v, sym.SymEnum):
@@ -448,12 +475,22 @@ def spec_of_value(v):
         return EnumOf(type(v))
     if isinstance(v, (sym.SymInt, int)):
         return Int
+    if isinstance(v, sym.SymStr) and type(v) is not sym.SymStr:
+        kind = type(v)
+        return type("StrLike", (_Str,), dict(
+            fresh=lambda self, name: kind(cur().fresh(name, STR)), wrap=lambda self, t: kind(t)))()
     if isinstance(v, (sym.SymStr, str)):
         return Str
     if isinstance(v, (sym.SymBytes, bytes)):
         return Bytes
     if isinstance(v, sym.SymOpaque):
         return Opaque(v.t.sort)
+    if isinstance(v, sym.SymFlag):
+        return FlagOf(v.cls)
+    import enum as _e
+
+    if isinstance(v, _e.Flag):
+        return FlagOf(type(v))
     if isinstance(v, (sym.SymMap, sym.SymSet, sym.SymSeq)) and hasattr(v, "spec"):
         return v.spec
     return None
